@@ -1,8 +1,1796 @@
-//! C18 — see /verif/DESIGN.md §3.
-use vf_core::{Args, Ctx};
+//! C18 — IFT patches change exactly what they say, atomically and
+//! order-independently. See /verif/DESIGN.md §3.
+//!
+//! Oracles (reference patcher in `model`):
+//!  * table-keyed: patched table == decoded bytes, dropped tables absent, all
+//!    other tables byte-identical;
+//!  * glyph-keyed: per-glyph bytes (read back through loca / gvar offsets /
+//!    charstrings INDEX by an independent parser) == patch data for listed
+//!    glyphs, == base data otherwise; offsets ascending and exact; widening
+//!    only when needed; exactly the applied bits set in IFT/IFTX; all other
+//!    tables byte-identical;
+//!  * compat-id mismatch, malformed patches and every injected decoder failure
+//!    give Err with the caller's `HashMap<String, UriStatus>` untouched;
+//!  * agreeing glyph-keyed patches give identical tables for every permutation
+//!    and every partition into groups.
+
+pub mod build;
+pub mod decoder;
+pub mod model;
+
+use build::*;
+use decoder::*;
+use model::*;
+
+use incremental_font_transfer::font_patch::{IncrementalFontPatchBase, PatchingError};
+use incremental_font_transfer::patch_group::{PatchGroup, PatchInfo, UriStatus};
+use incremental_font_transfer::patchmap::{intersecting_patches, SubsetDefinition};
+use read_fonts::FontRef;
+use serde_json::json;
+use std::cell::RefCell;
+use std::collections::{BTreeMap, HashMap};
+use vf_core::{Args, Ctx, Digest, Rng};
 
 pub const REPLAY: Option<fn(&mut Ctx, &Args, &serde_json::Value, Option<&[u8]>)> = None;
 
+// ---------------------------------------------------------------- scenario model
+
+#[derive(Clone, Debug)]
+pub struct MapBuilt {
+    pub spec: MapSpec,
+    pub bytes: Vec<u8>,
+    pub infos: Vec<EntryInfo>,
+}
+
+#[derive(Clone, Debug)]
+pub enum PatchModel {
+    Gk {
+        spec: GkSpec,
+        bytes: Vec<u8>,
+    },
+    Tk {
+        entries: Vec<TkEntry>,
+        /// what each entry's stream decodes to with a fault-free decoder
+        plains: Vec<Option<Vec<u8>>>,
+        bytes: Vec<u8>,
+        new_ift: Option<MapBuilt>,
+    },
+}
+
+pub struct Scenario {
+    pub index: usize,
+    pub flavour: String,
+    pub fspec: FontSpec,
+    pub font: Vec<u8>,
+    pub ift: Option<MapBuilt>,
+    pub iftx: Option<MapBuilt>,
+    pub patches: BTreeMap<String, PatchModel>,
+    pub real: bool,
+    /// duplicates across glyph-keyed patches carry identical data
+    pub agree: bool,
+    pub digest: u64,
+}
+
+fn clone_map(m: &HashMap<String, UriStatus>) -> HashMap<String, UriStatus> {
+    m.iter()
+        .map(|(k, v)| {
+            (
+                k.clone(),
+                match v {
+                    UriStatus::Applied => UriStatus::Applied,
+                    UriStatus::Pending(d) => UriStatus::Pending(d.clone()),
+                },
+            )
+        })
+        .collect()
+}
+
+fn map_diff(a: &HashMap<String, UriStatus>, b: &HashMap<String, UriStatus>) -> Option<String> {
+    if a.len() != b.len() {
+        return Some(format!("{} entries -> {} entries", a.len(), b.len()));
+    }
+    let mut keys: Vec<&String> = a.keys().collect();
+    keys.sort();
+    for k in keys {
+        match (a.get(k), b.get(k)) {
+            (Some(x), Some(y)) if x == y => {}
+            (Some(x), Some(y)) => {
+                let d = |s: &UriStatus| match s {
+                    UriStatus::Applied => "Applied".to_string(),
+                    UriStatus::Pending(v) => format!("Pending({} bytes)", v.len()),
+                };
+                return Some(format!("{k}: {} -> {}", d(x), d(y)));
+            }
+            _ => return Some(format!("{k}: missing")),
+        }
+    }
+    None
+}
+
+// ---------------------------------------------------------------- generators
+
+fn rand_compat(rng: &mut Rng) -> [u8; 16] {
+    let mut c = [0u8; 16];
+    c.copy_from_slice(&rng.bytes(16));
+    c
+}
+
+fn rand_len(rng: &mut Rng) -> usize {
+    match rng.below(10) {
+        0 | 1 => 0,
+        2 => 1,
+        3 => 2,
+        4 => 3,
+        5 | 6 => 1 + rng.usize(12),
+        7 => 13 + rng.usize(50),
+        8 => 2 * rng.usize(40) + 1,
+        _ => 64 + rng.usize(700),
+    }
+}
+
+/// Per-glyph data; `even` for divided offsets; if `target` is given glyph
+/// `filler` is resized so the total hits it exactly (when possible).
+fn gen_glyph_data(rng: &mut Rng, n: usize, even: bool, target: Option<usize>, small: bool) -> Vec<Vec<u8>> {
+    let mut v: Vec<Vec<u8>> = (0..n)
+        .map(|_| {
+            let mut l = rand_len(rng);
+            if small {
+                l %= 7;
+            }
+            if even {
+                l += l % 2;
+            }
+            rng.bytes(l)
+        })
+        .collect();
+    if let Some(t) = target {
+        let filler = rng.usize(n);
+        let others: usize = v.iter().enumerate().filter(|(i, _)| *i != filler).map(|(_, d)| d.len()).sum();
+        if others <= t {
+            let mut l = t - others;
+            if even {
+                l -= l % 2;
+            }
+            let mut d = vec![0u8; l];
+            // cheap non-constant fill
+            for (i, b) in d.iter_mut().enumerate() {
+                *b = (i as u8).wrapping_mul(31) ^ (i >> 8) as u8;
+            }
+            v[filler] = d;
+        }
+    }
+    v
+}
+
+const FLAVOURS: &[&str] = &[
+    "glyf-short",
+    "glyf-long",
+    "glyf-short-threshold",
+    "glyf-short+gvar-short",
+    "glyf-long+gvar-long",
+    "gvar-short-threshold",
+    "gvar-short-oddlayout",
+    "cff-os1",
+    "cff-os1-threshold",
+    "cff-os2-threshold",
+    "cff-os3",
+    "cff-os4",
+    "cff2-os1-threshold",
+    "cff2-os2-threshold",
+    "cff2-os3",
+    "cff2-os4",
+    "cff-os3-threshold",
+    "cff2-os3-threshold",
+];
+
+fn gen_font_spec(rng: &mut Rng, flavour: &str) -> FontSpec {
+    let n = match rng.below(8) {
+        0 => 1,
+        1 => 2,
+        2 => 3 + rng.usize(5),
+        3 => 255 + rng.usize(4),
+        _ => 4 + rng.usize(36),
+    };
+    let mut s = FontSpec { n, ..Default::default() };
+    // slack below the widening threshold: 0..=9 bytes
+    let slack = rng.usize(10);
+    let gv = |rng: &mut Rng, short: bool, target: Option<usize>, odd_layout: bool| GvarSpec {
+        short,
+        axis_count: 1 + rng.usize(2) as u16,
+        shared_tuple_count: if odd_layout && rng.bool() { 0 } else { rng.usize(4) as u16 },
+        out_of_order: odd_layout && rng.bool(),
+        data: gen_glyph_data(rng, n, short, target, false),
+    };
+    match flavour {
+        "glyf-short" => s.glyf = Some((true, gen_glyph_data(rng, n, true, None, false))),
+        "glyf-long" => s.glyf = Some((false, gen_glyph_data(rng, n, false, None, false))),
+        "glyf-short-threshold" => {
+            s.glyf = Some((true, gen_glyph_data(rng, n, true, Some(131070 - slack), true)));
+        }
+        "glyf-short+gvar-short" => {
+            s.glyf = Some((true, gen_glyph_data(rng, n, true, None, false)));
+            s.gvar = Some(gv(rng, true, None, false));
+        }
+        "glyf-long+gvar-long" => {
+            s.glyf = Some((false, gen_glyph_data(rng, n, false, None, false)));
+            s.gvar = Some(gv(rng, false, None, false));
+        }
+        "gvar-short-threshold" => {
+            s.glyf = Some((true, gen_glyph_data(rng, n, true, None, true)));
+            let odd = rng.bool();
+            let mut g = gv(rng, true, None, odd);
+            g.data = gen_glyph_data(rng, n, true, Some(131070 - slack), true);
+            s.gvar = Some(g);
+        }
+        "gvar-short-oddlayout" => {
+            let (sl, sg) = (rng.bool(), rng.bool());
+            s.glyf = Some((sl, gen_glyph_data(rng, n, true, None, true)));
+            s.gvar = Some(gv(rng, sg, None, true));
+        }
+        "cff-os1" => {
+            let tt = rng.usize(200);
+            s.cff = Some((1, gen_glyph_data(rng, n, false, Some(tt), true)))
+        }
+        "cff-os1-threshold" => s.cff = Some((1, gen_glyph_data(rng, n, false, Some(254 - slack), true))),
+        "cff-os2-threshold" => s.cff = Some((2, gen_glyph_data(rng, n, false, Some(65534 - slack), true))),
+        "cff-os3" => s.cff = Some((3, gen_glyph_data(rng, n, false, None, false))),
+        "cff-os4" => s.cff = Some((4, gen_glyph_data(rng, n, false, None, false))),
+        "cff-os3-threshold" => s.cff = Some((3, gen_glyph_data(rng, n, false, Some(16777214 - slack), true))),
+        "cff2-os1-threshold" => s.cff2 = Some((1, gen_glyph_data(rng, n, false, Some(254 - slack), true))),
+        "cff2-os2-threshold" => s.cff2 = Some((2, gen_glyph_data(rng, n, false, Some(65534 - slack), true))),
+        "cff2-os3" => s.cff2 = Some((3, gen_glyph_data(rng, n, false, None, false))),
+        "cff2-os4" => s.cff2 = Some((4, gen_glyph_data(rng, n, false, None, false))),
+        "cff2-os3-threshold" => s.cff2 = Some((3, gen_glyph_data(rng, n, false, Some(16777214 - slack), true))),
+        _ => s.glyf = Some((true, gen_glyph_data(rng, n, true, None, false))),
+    }
+    // the base font must itself be representable in its offset width
+    fn fit(data: &mut [Vec<u8>], max: usize) {
+        let mut total: usize = data.iter().map(|d| d.len()).sum();
+        for d in data.iter_mut().rev() {
+            if total <= max {
+                break;
+            }
+            total -= d.len();
+            d.clear();
+        }
+    }
+    if let Some((true, d)) = &mut s.glyf {
+        fit(d, 131070);
+    }
+    if let Some(g) = &mut s.gvar {
+        if g.short {
+            fit(&mut g.data, 131070);
+        }
+    }
+    if let Some((os, d)) = &mut s.cff {
+        fit(d, max_total(&CFF, *os as usize));
+    }
+    if let Some((os, d)) = &mut s.cff2 {
+        fit(d, max_total(&CFF2, *os as usize));
+    }
+    // a few opaque tables
+    let n_extra = 1 + rng.usize(4);
+    for i in 0..n_extra {
+        let tag = [b't', b'a', b'b', b'1' + i as u8];
+        let l = rng.usize(60);
+        s.extra.push((tag, rng.bytes(l)));
+    }
+    s
+}
+
+fn glyph_tables_of(s: &FontSpec) -> Vec<Tag4> {
+    let mut v = vec![];
+    if s.cff.is_some() {
+        v.push(CFF);
+    }
+    if s.cff2.is_some() {
+        v.push(CFF2);
+    }
+    if s.glyf.is_some() {
+        v.push(GLYF);
+    }
+    if s.gvar.is_some() {
+        v.push(GVAR);
+    }
+    v
+}
+
+/// A random well-formed glyph-keyed payload. Glyphs shared with `earlier`
+/// patches (same table) copy their data (agree) or differ in content only.
+fn gen_gk_spec(rng: &mut Rng, s: &FontSpec, earlier: &[GkSpec], agree: bool, small: bool) -> GkSpec {
+    let n = s.n;
+    let avail = glyph_tables_of(s);
+    let mut tables: Vec<Tag4> = avail.iter().filter(|_| rng.chance(3, 4)).copied().collect();
+    if tables.is_empty() {
+        tables.push(*rng.pick(&avail));
+    }
+    if rng.chance(1, 8) {
+        tables.push(*b"zzzz"); // unknown tables are ignored by the patcher
+    }
+    if rng.chance(1, 16) {
+        tables.push(*b"DSIG");
+    }
+    tables.sort();
+    tables.dedup();
+    let count = match rng.below(8) {
+        0 => 0,
+        1 => 1,
+        2 => n.min(2),
+        3 => n, // all glyphs
+        _ => 1 + rng.usize(n.min(9)),
+    };
+    let mut gids: Vec<u32> = vec![];
+    // bias: first / last glyph, runs of consecutive ids, ids shared with earlier patches
+    let mut pool: Vec<u32> = (0..n as u32).collect();
+    rng.shuffle(&mut pool);
+    if rng.bool() {
+        gids.push(0);
+    }
+    if rng.bool() {
+        gids.push(n as u32 - 1);
+    }
+    if !earlier.is_empty() && rng.chance(2, 3) {
+        let e = rng.pick(earlier);
+        if !e.gids.is_empty() {
+            gids.push(*rng.pick(&e.gids));
+        }
+    }
+    if rng.bool() && n > 3 {
+        let st = rng.usize(n - 2) as u32;
+        gids.extend([st, st + 1, st + 2]);
+    }
+    gids.extend(pool);
+    let mut seen = std::collections::BTreeSet::new();
+    gids.retain(|g| seen.insert(*g));
+    gids.truncate(count);
+    gids.sort();
+    let mut data = vec![];
+    for tag in &tables {
+        let mut per = vec![];
+        for g in &gids {
+            // earlier data for this (table, gid)?
+            let prev = earlier.iter().find_map(|e| {
+                let ti = e.tables.iter().position(|x| x == tag)?;
+                let gi = e.gids.iter().position(|x| x == g)?;
+                Some(e.data[ti][gi].clone())
+            });
+            let d = match prev {
+                Some(p) if agree => p,
+                Some(p) => {
+                    let mut q = rng.bytes(p.len());
+                    if q == p && !q.is_empty() {
+                        q[0] ^= 1;
+                    }
+                    q
+                }
+                None => {
+                    let mut l = rand_len(rng);
+                    if small {
+                        l %= 9;
+                    }
+                    rng.bytes(l)
+                }
+            };
+            per.push(d);
+        }
+        data.push(per);
+    }
+    GkSpec { wide: rng.chance(1, 4), gids, tables, data }
+}
+
+fn encode_gk(spec: &GkSpec, compat: &[u8; 16], real: bool, rng: &mut Rng) -> Vec<u8> {
+    let payload = gk_payload(spec);
+    let max_len = payload.len() as u32 + if rng.bool() { 0 } else { rng.below(100) as u32 };
+    if real {
+        gk_patch(b"ifgk", spec.wide, compat, max_len, &brotli_stored(&payload))
+    } else {
+        gk_patch(b"ifgk", spec.wide, compat, max_len, &payload)
+    }
+}
+
+fn gen_map_spec(rng: &mut Rng, kinds: &[Kind], template: &str, n_glyphs: usize, fs: &FontSpec, is_ift: bool) -> MapSpec {
+    let uniform = kinds.windows(2).all(|w| w[0] == w[1]);
+    let format = if uniform && n_glyphs > kinds.len() && fs.with_cmap && rng.chance(1, 3) { 1 } else { 2 };
+    let mut ids: Vec<u32> = if format == 1 {
+        (1..=kinds.len() as u32).collect()
+    } else {
+        // distinct ids in random order: URI order differs from entry order
+        let mut set = std::collections::BTreeSet::new();
+        while set.len() < kinds.len() {
+            set.insert(match rng.below(3) {
+                0 => 1 + rng.below(40) as u32,
+                1 => 1 + rng.below(70000) as u32,
+                _ => 1 + rng.below(300) as u32,
+            });
+        }
+        let mut v: Vec<u32> = set.into_iter().collect();
+        if rng.bool() {
+            rng.shuffle(&mut v);
+        }
+        v
+    };
+    let entries = kinds
+        .iter()
+        .map(|k| EntrySpec { kind: *k, id: ids.remove(0), pre_applied: false })
+        .collect();
+    MapSpec {
+        format,
+        compat: rand_compat(rng),
+        template: template.to_string(),
+        entries,
+        cff_off: if is_ift && fs.cff.is_some() { Some(cff_prefix_len() as u32) } else { None },
+        cff2_off: if is_ift && fs.cff2.is_some() { Some(cff2_prefix_len() as u32) } else { None },
+    }
+}
+
+fn gen_tk(
+    rng: &mut Rng,
+    fs: &FontSpec,
+    compat: &[u8; 16],
+    real: bool,
+    new_ift: Option<&MapBuilt>,
+) -> (Vec<TkEntry>, Vec<Option<Vec<u8>>>, Vec<u8>) {
+    let mut entries: Vec<TkEntry> = vec![];
+    let mut plains: Vec<Option<Vec<u8>>> = vec![];
+    fn push(
+        rng: &mut Rng,
+        real: bool,
+        entries: &mut Vec<TkEntry>,
+        plains: &mut Vec<Option<Vec<u8>>>,
+        tag: Tag4,
+        flags: u8,
+        plain: Option<Vec<u8>>,
+        stream: Option<Vec<u8>>,
+    ) {
+        let (stream, max_len) = match &plain {
+            None => (vec![], 0u32),
+            Some(p) => {
+                let st = stream.unwrap_or_else(|| if real { brotli_stored(p) } else { p.clone() });
+                (st, p.len() as u32 + if rng.bool() { 0 } else { rng.below(50) as u32 })
+            }
+        };
+        entries.push(TkEntry { tag, flags, max_len, stream });
+        plains.push(plain);
+    }
+    let mut tags: Vec<Tag4> = fs.extra.iter().map(|e| e.0).collect();
+    rng.shuffle(&mut tags);
+    for tag in tags {
+        match rng.below(5) {
+            0 => {}
+            1 => push(rng, real, &mut entries, &mut plains, tag, 2, None, None), // drop
+            2 => {
+                let l = rand_len(rng);
+                let b = rng.bytes(l);
+                push(rng, real, &mut entries, &mut plains, tag, 1, Some(b), None) // replace
+            }
+            _ => {
+                // diff against base
+                if real && fs.extra.iter().any(|e| e.0 == tag && e.1 == DICT_BASE) {
+                    push(rng, real, &mut entries, &mut plains, tag, 0, Some(DICT_TARGET.to_vec()), Some(DICT_STREAM.to_vec()));
+                } else {
+                    let l = rand_len(rng);
+                    let b = rng.bytes(l);
+                    push(rng, real, &mut entries, &mut plains, tag, 0, Some(b), None);
+                }
+            }
+        }
+    }
+    if rng.chance(1, 3) {
+        let l = rand_len(rng);
+        let b = rng.bytes(l);
+        push(rng, real, &mut entries, &mut plains, *b"newT", 1, Some(b), None); // a brand-new table
+    }
+    if rng.chance(1, 4) {
+        push(rng, real, &mut entries, &mut plains, *b"nope", 2, None, None); // dropping an absent table
+    }
+    if let Some(m) = new_ift {
+        let fl = if rng.bool() { 1 } else { 0 };
+        push(rng, real, &mut entries, &mut plains, IFT, fl, Some(m.bytes.clone()), None);
+    }
+    if entries.is_empty() {
+        let b = rng.bytes(5);
+        push(rng, real, &mut entries, &mut plains, *b"newU", 1, Some(b), None);
+    }
+    let bytes = tk_patch(b"iftk", compat, &entries);
+    (entries, plains, bytes)
+}
+
+fn built(spec: MapSpec, n: usize, iftx: bool) -> MapBuilt {
+    let (bytes, infos) = build_map(&spec, n, iftx);
+    MapBuilt { spec, bytes, infos }
+}
+
+pub fn gen_scenario(seed: u64, index: usize, tier_thorough: bool) -> Scenario {
+    let mut rng = Rng::derive(seed, "c18-scenario", index as u64);
+    let rng = &mut rng;
+    // the 16 MB flavours are expensive: rare
+    let nf = FLAVOURS.len();
+    let mut fi = (index + index / 16) % (nf - 2);
+    if index % 397 == 5 || (tier_thorough && index % 97 == 5) {
+        fi = nf - 2 + (index / 97) % 2;
+    }
+    let flavour = FLAVOURS[fi];
+    let mut fs = gen_font_spec(rng, flavour);
+    let real = rng.chance(1, 4);
+    let agree = rng.chance(3, 4);
+    fs.with_cmap = rng.bool();
+    if real {
+        fs.extra.push((*b"dict", DICT_BASE.to_vec()));
+    }
+    let big = flavour.ends_with("threshold");
+
+    // which kinds of entries the two mapping tables carry
+    let mode = rng.below(6);
+    let n_gk_ift = match mode {
+        0 => 0,
+        _ => 1 + rng.usize(4),
+    };
+    let n_gk_iftx = if rng.bool() { rng.usize(3) } else { 0 };
+    let mut ift_kinds = vec![Kind::Gk; n_gk_ift];
+    let mut iftx_kinds = vec![Kind::Gk; n_gk_iftx];
+    match mode {
+        0 => ift_kinds.push(if rng.bool() { Kind::TkFull } else { Kind::TkPartial }),
+        1 => ift_kinds.insert(rng.usize(n_gk_ift + 1), Kind::TkPartial),
+        2 => {
+            if rng.bool() {
+                iftx_kinds.insert(rng.usize(n_gk_iftx + 1), Kind::TkPartial)
+            } else {
+                iftx_kinds.push(Kind::TkFull)
+            }
+        }
+        _ => {}
+    }
+    let ift_spec = gen_map_spec(rng, &ift_kinds, "a/{id}", fs.n, &fs, true);
+    let mut ift_spec = ift_spec;
+    // some already-applied (ignored) entries whose bits must survive
+    if ift_spec.entries.len() > 1 && rng.chance(1, 3) {
+        let k = rng.usize(ift_spec.entries.len());
+        if ift_spec.entries[k].kind == Kind::Gk {
+            ift_spec.entries[k].pre_applied = true;
+        }
+    }
+    let ift = built(ift_spec, fs.n, false);
+    let iftx = if iftx_kinds.is_empty() {
+        None
+    } else {
+        Some(built(gen_map_spec(rng, &iftx_kinds, "b/{id}", fs.n, &fs, false), fs.n, true))
+    };
+
+    // patches
+    let mut patches = BTreeMap::new();
+    let mut earlier: Vec<GkSpec> = vec![];
+    let all_infos: Vec<(EntryInfo, [u8; 16])> = ift
+        .infos
+        .iter()
+        .map(|i| (i.clone(), ift.spec.compat))
+        .chain(iftx.iter().flat_map(|m| m.infos.iter().map(|i| (i.clone(), m.spec.compat))))
+        .collect();
+    for (info, compat) in &all_infos {
+        match info.kind {
+            Kind::Gk => {
+                let spec = gen_gk_spec(rng, &fs, &earlier, agree, big);
+                let bytes = encode_gk(&spec, compat, real, rng);
+                earlier.push(spec.clone());
+                patches.insert(info.uri.clone(), PatchModel::Gk { spec, bytes });
+            }
+            _ => {
+                // optionally replace IFT by a stage-2 mapping with fresh glyph-keyed entries
+                let stage2 = if !info.in_iftx && rng.chance(1, 2) {
+                    let k2 = vec![Kind::Gk; 1 + rng.usize(2)];
+                    let mut sp = gen_map_spec(rng, &k2, "c/{id}", fs.n, &fs, true);
+                    sp.format = 2;
+                    let sp_ids: Vec<u32> = (0..k2.len() as u32).map(|i| 3 + i * 2).collect();
+                    for (e, id) in sp.entries.iter_mut().zip(sp_ids) {
+                        e.id = id;
+                    }
+                    Some(built(sp, fs.n, false))
+                } else {
+                    None
+                };
+                let (entries, plains, bytes) = gen_tk(rng, &fs, compat, real, stage2.as_ref());
+                if let Some(m) = &stage2 {
+                    for i2 in &m.infos {
+                        let spec = gen_gk_spec(rng, &fs, &[], true, big);
+                        let b2 = encode_gk(&spec, &m.spec.compat, real, rng);
+                        patches.insert(i2.uri.clone(), PatchModel::Gk { spec, bytes: b2 });
+                    }
+                }
+                patches.insert(info.uri.clone(), PatchModel::Tk { entries, plains, bytes, new_ift: stage2 });
+            }
+        }
+    }
+    let font = build_font(&fs, Some(&ift.bytes), iftx.as_ref().map(|m| m.bytes.as_slice()));
+    let mut d = Digest::new();
+    d.bytes(&font);
+    for (u, p) in &patches {
+        d.str(u);
+        match p {
+            PatchModel::Gk { bytes, .. } | PatchModel::Tk { bytes, .. } => d.bytes(bytes),
+        }
+    }
+    Scenario {
+        index,
+        flavour: flavour.to_string(),
+        fspec: fs,
+        font,
+        ift: Some(ift),
+        iftx,
+        patches,
+        real,
+        agree,
+        digest: d.finish(),
+    }
+}
+
+/// Hand-built scenario: all patches are glyph-keyed entries 1..k of a format-2 IFT table.
+fn scenario_from(index: usize, flavour: &str, fs: FontSpec, specs: Vec<GkSpec>) -> Scenario {
+    let compat = [7u8; 16];
+    let spec = MapSpec {
+        format: 2,
+        compat,
+        template: "d/{id}".into(),
+        entries: (0..specs.len()).map(|i| EntrySpec { kind: Kind::Gk, id: i as u32 + 1, pre_applied: false }).collect(),
+        cff_off: fs.cff.as_ref().map(|_| cff_prefix_len() as u32),
+        cff2_off: fs.cff2.as_ref().map(|_| cff2_prefix_len() as u32),
+    };
+    let ift = built(spec, fs.n, false);
+    let mut patches = BTreeMap::new();
+    for (info, s) in ift.infos.iter().zip(specs) {
+        let payload = gk_payload(&s);
+        let bytes = gk_patch(b"ifgk", s.wide, &compat, payload.len() as u32, &payload);
+        patches.insert(info.uri.clone(), PatchModel::Gk { spec: s, bytes });
+    }
+    let font = build_font(&fs, Some(&ift.bytes), None);
+    let mut d = Digest::new();
+    d.bytes(&font);
+    d.str(flavour);
+    Scenario { index, flavour: flavour.into(), fspec: fs, font, ift: Some(ift), iftx: None, patches, real: false, agree: true, digest: d.finish() }
+}
+
+/// Deterministic corner cases (independent of the seed).
+pub fn directed_scenarios() -> Vec<Scenario> {
+    let mut v = vec![];
+    let one = |gid: u32, tables: Vec<Tag4>, data: Vec<Vec<u8>>| GkSpec {
+        wide: false,
+        gids: vec![gid],
+        tables,
+        data: data.into_iter().map(|d| vec![d]).collect(),
+    };
+    let gvar_spec = |short: bool, data: Vec<Vec<u8>>| GvarSpec { short, axis_count: 1, shared_tuple_count: 2, out_of_order: false, data };
+    // 1. an initial font whose gvar holds no data yet; the patch brings an outline without variations
+    {
+        let fs = FontSpec {
+            n: 3,
+            glyf: Some((true, vec![vec![1, 2], vec![], vec![]])),
+            gvar: Some(gvar_spec(true, vec![vec![], vec![], vec![]])),
+            ..Default::default()
+        };
+        v.push(scenario_from(1_000_001, "directed:gvar-all-empty", fs, vec![one(1, vec![GLYF, GVAR], vec![vec![9, 8, 7, 6], vec![]])]));
+    }
+    // 2. odd-length gvar data padded under short offsets, then kept when a later patch widens to long
+    {
+        let fs = FontSpec {
+            n: 3,
+            glyf: Some((true, vec![vec![1, 2], vec![], vec![]])),
+            gvar: Some(gvar_spec(true, vec![vec![0x55; 131066], vec![], vec![]])),
+            ..Default::default()
+        };
+        v.push(scenario_from(
+            1_000_002,
+            "directed:gvar-pad-then-widen",
+            fs,
+            vec![one(1, vec![GVAR], vec![vec![0xAA]]), one(2, vec![GVAR], vec![vec![1, 2, 3, 4, 5, 6, 7, 8]])],
+        ));
+    }
+    // 3. CFF offSize widened by an intermediate state and never narrowed
+    for cff2 in [false, true] {
+        let data = vec![vec![0x0e; 250], vec![], vec![]];
+        let fs = FontSpec {
+            n: 3,
+            cff: if cff2 { None } else { Some((1, data.clone())) },
+            cff2: if cff2 { Some((1, data)) } else { None },
+            ..Default::default()
+        };
+        let tg = if cff2 { CFF2 } else { CFF };
+        v.push(scenario_from(
+            1_000_003 + cff2 as usize,
+            "directed:cff-offsize-sticky",
+            fs,
+            vec![one(1, vec![tg], vec![vec![0x0e; 10]]), one(0, vec![tg], vec![vec![0x0e; 5]])],
+        ));
+    }
+    // 4. exact widening boundaries: total == max stays, max+1 (max+2 for divided offsets) widens
+    for (k, extra) in [0usize, 1, 2, 3].into_iter().enumerate() {
+        let fs = FontSpec {
+            n: 2,
+            glyf: Some((true, vec![vec![1, 2], vec![]])),
+            gvar: Some(gvar_spec(true, vec![vec![0x11; 131060], vec![]])),
+            ..Default::default()
+        };
+        // 131060 + 8 + extra (padded to even)
+        v.push(scenario_from(1_000_010 + k, "directed:gvar-boundary", fs, vec![one(1, vec![GVAR], vec![vec![3; 8 + extra]])]));
+        for (os, max) in [(1u8, 254usize), (2, 65534)] {
+            let fs = FontSpec { n: 2, cff: Some((os, vec![vec![0x0e; max - 8], vec![]])), ..Default::default() };
+            v.push(scenario_from(1_000_020 + k + 10 * os as usize, "directed:cff-boundary", fs, vec![one(1, vec![CFF], vec![vec![3; 7 + extra]])]));
+        }
+        let fs = FontSpec { n: 2, glyf: Some((true, vec![vec![0x11; 131060], vec![]])), ..Default::default() };
+        v.push(scenario_from(1_000_050 + k, "directed:glyf-boundary", fs, vec![one(1, vec![GLYF], vec![vec![3; 8 + extra]])]));
+    }
+    v
+}
+
+// ---------------------------------------------------------------- group driver
+
+struct State {
+    font: Vec<u8>,
+    ift_infos: Vec<EntryInfo>,
+    iftx_infos: Vec<EntryInfo>,
+    map: HashMap<String, UriStatus>,
+}
+
+impl State {
+    fn info(&self, uri: &str) -> Option<&EntryInfo> {
+        self.ift_infos.iter().chain(self.iftx_infos.iter()).find(|i| i.uri == uri)
+    }
+}
+
+enum Plan {
+    Tk(String),
+    Gk(Vec<String>),
+    NothingPending,
+}
+
+fn sig(what: &str, sc: &Scenario, via: &str) -> String {
+    format!("{what}|flavour={}|via={via}", sc.flavour)
+}
+
+/// Signature for a well-formed glyph-keyed application that was rejected.
+fn rejected_sig(base: &Tables, specs: &[&GkSpec], e: &PatchingError, sc: &Scenario, via: &str) -> String {
+    if matches!(e, PatchingError::SerializationError(_)) && gvar_result_empty(base, specs) {
+        // known class: klippa's pop_pack returns None for a zero-length object
+        return "gk:gvar-empty-data-array-rejected".into();
+    }
+    sig("gk:valid-application-rejected", sc, via)
+}
+
+fn case_json(sc: &Scenario, extra: serde_json::Value) -> serde_json::Value {
+    json!({
+        "scenario_index": sc.index,
+        "flavour": sc.flavour,
+        "num_glyphs": sc.fspec.n,
+        "real_brotli": sc.real,
+        "agreeing_duplicates": sc.agree,
+        "ift_format": sc.ift.as_ref().map(|m| m.spec.format),
+        "iftx_format": sc.iftx.as_ref().map(|m| m.spec.format),
+        "patches": sc.patches.iter().map(|(u, p)| match p {
+            PatchModel::Gk { spec, .. } => json!({"uri": u, "kind": "glyph-keyed", "gids": spec.gids, "tables": spec.tables.iter().map(tag_str).collect::<Vec<_>>(),
+                "lens": spec.data.iter().map(|t| t.iter().map(|d| d.len()).collect::<Vec<_>>()).collect::<Vec<_>>()}),
+            PatchModel::Tk { entries, .. } => json!({"uri": u, "kind": "table-keyed", "entries": entries.iter().map(|e| json!({"tag": tag_str(&e.tag), "flags": e.flags, "stream_len": e.stream.len(), "max_len": e.max_len})).collect::<Vec<_>>()}),
+        }).collect::<Vec<_>>(),
+        "detail": extra,
+    })
+}
+
+fn apply_group(
+    ctx: &mut Ctx,
+    font: &[u8],
+    map: &mut HashMap<String, UriStatus>,
+    dec: &FaultyDecoder,
+    label: &str,
+) -> Option<Result<Result<Vec<u8>, PatchingError>, vf_core::PanicInfo>> {
+    let fr = FontRef::new(font).ok()?;
+    let group = PatchGroup::select_next_patches(fr, &SubsetDefinition::all()).ok()?;
+    let g = RefCell::new(Some(group));
+    let m = RefCell::new(map);
+    let r = ctx.run_case(&|| label.to_string(), None, &|| {
+        let group = g.borrow_mut().take().expect("one shot");
+        let mut mm = m.borrow_mut();
+        group.apply_next_patches_with_decoder(&mut mm, dec)
+    });
+    Some(r)
+}
+
+fn bits_for(st: &State, uris: &[String]) -> (Vec<usize>, Vec<usize>) {
+    let mut a = vec![];
+    let mut b = vec![];
+    for u in uris {
+        if let Some(i) = st.info(u) {
+            if i.in_iftx {
+                b.push(i.bit_index)
+            } else {
+                a.push(i.bit_index)
+            }
+        }
+    }
+    (a, b)
+}
+
+fn report(ctx: &mut Ctx, sc: &Scenario, via: &str, findings: Vec<Finding>, extra: serde_json::Value) {
+    for f in findings {
+        if f.what.starts_with("harness") {
+            ctx.inconclusive(format!("{}: {}", f.what, f.detail));
+            continue;
+        }
+        let s = sig(&f.what, sc, via);
+        ctx.violation(&s, case_json(sc, json!({"finding": f.what, "info": f.detail, "context": extra})), Some(&sc.font));
+    }
+}
+
+fn record_obs(ctx: &mut Ctx, obs: &Obs) {
+    ctx.count("glyphs_replaced", obs.glyphs_replaced as u64);
+    ctx.count("glyphs_changed", obs.glyphs_changed as u64);
+    ctx.count("glyphs_kept_verified", obs.glyphs_kept as u64);
+    ctx.count("odd_length_padded", obs.padded as u64);
+    ctx.count("disagreeing_duplicate_first_wins", obs.dup_first_wins as u64);
+    ctx.count("disagreeing_duplicate_other_wins", obs.dup_other_wins as u64);
+    for w in &obs.widenings {
+        ctx.count(&format!("widening:{w}"), 1);
+        ctx.label("widenings", w);
+    }
+    for t in &obs.tables_patched {
+        ctx.count(&format!("glyph_table_patched:{t}"), 1);
+    }
+}
+
+/// One select -> apply round, with full fault enumeration. Returns false when
+/// the history ends.
+fn run_round(ctx: &mut Ctx, sc: &Scenario, st: &mut State, round: usize) -> bool {
+    let Ok(fr) = FontRef::new(&st.font) else {
+        ctx.inconclusive("harness: current font does not parse");
+        return false;
+    };
+    let group = match PatchGroup::select_next_patches(fr, &SubsetDefinition::all()) {
+        Ok(g) => g,
+        Err(e) => {
+            ctx.inconclusive(format!("harness: select_next_patches failed: {e:?}"));
+            return false;
+        }
+    };
+    let uris: Vec<String> = group.uris().map(|s| s.to_string()).collect();
+    drop(group);
+    if uris.is_empty() {
+        return false;
+    }
+    if uris.iter().any(|u| st.info(u).is_none() || !st.map.contains_key(u)) {
+        ctx.inconclusive("harness: selected uri unknown to the model");
+        return false;
+    }
+    let first = st.info(&uris[0]).unwrap();
+    let plan = if first.kind.is_tk() && matches!(st.map[&uris[0]], UriStatus::Pending(_)) {
+        Plan::Tk(uris[0].clone())
+    } else {
+        let pending: Vec<String> = uris
+            .iter()
+            .filter(|u| st.info(u).unwrap().kind == Kind::Gk && matches!(st.map[*u], UriStatus::Pending(_)))
+            .cloned()
+            .collect();
+        if pending.is_empty() {
+            Plan::NothingPending
+        } else {
+            Plan::Gk(pending)
+        }
+    };
+    let group_gk_uris: Vec<String> = uris.iter().filter(|u| st.info(u).unwrap().kind == Kind::Gk).cloned().collect();
+    let base_tables = tables_of(&st.font);
+    let snapshot = clone_map(&st.map);
+    let label = format!("scenario {} round {round}", sc.index);
+
+    // ---- fault-free run
+    let dec = FaultyDecoder::new(sc.real, None);
+    let mut map = clone_map(&snapshot);
+    ctx.eval();
+    let Some(res) = apply_group(ctx, &st.font, &mut map, &dec, &label) else {
+        ctx.inconclusive("harness: group vanished");
+        return false;
+    };
+    let res = match res {
+        Ok(r) => r,
+        Err(p) => {
+            ctx.judge_panic(&p, "apply_next_patches_with_decoder (fault-free)", case_json(sc, json!({"round": round})), Some(&st.font));
+            return false;
+        }
+    };
+    let n_calls = dec.calls.get();
+    let mut expected_map = clone_map(&snapshot);
+    let mut next_font: Option<Vec<u8>> = None;
+    let mut new_ift_infos: Option<Vec<EntryInfo>> = None;
+    let mut case_d = Digest::new();
+    case_d.u64(sc.digest);
+    case_d.u64(round as u64);
+    match (&plan, &res) {
+        (Plan::Tk(uri), Ok(bytes)) => {
+            let PatchModel::Tk { entries, plains, new_ift, .. } = &sc.patches[uri] else { unreachable!() };
+            let result_tables = tables_of(bytes);
+            let fs = check_tk(&base_tables, &result_tables, entries, plains);
+            report(ctx, sc, "group", fs, json!({"round": round, "uri": uri}));
+            expected_map.insert(uri.clone(), UriStatus::Applied);
+            ctx.count("applied:table-keyed:group", 1);
+            ctx.count("tk_entries:replace", entries.iter().filter(|e| e.flags & 3 == 1).count() as u64);
+            ctx.count("tk_entries:diff", entries.iter().filter(|e| e.flags & 3 == 0).count() as u64);
+            ctx.count("tk_entries:drop", entries.iter().filter(|e| e.flags & 2 != 0).count() as u64);
+            if diff_fonts(&base_tables, &result_tables).is_some() {
+                ctx.nontrivial(case_d.finish());
+            }
+            if let Some(m) = new_ift {
+                new_ift_infos = Some(m.infos.clone());
+            }
+            next_font = Some(bytes.clone());
+        }
+        (Plan::Tk(uri), Err(e)) => {
+            ctx.violation(
+                &sig("tk:valid-patch-rejected", sc, "group"),
+                case_json(sc, json!({"round": round, "uri": uri, "error": format!("{e:?}")})),
+                Some(&st.font),
+            );
+        }
+        (Plan::Gk(pending), r) => {
+            let specs: Vec<&GkSpec> = pending
+                .iter()
+                .map(|u| match &sc.patches[u] {
+                    PatchModel::Gk { spec, .. } => spec,
+                    _ => unreachable!(),
+                })
+                .collect();
+            let overflow = glyf_overflow(&base_tables, &specs);
+            match r {
+                Ok(bytes) => {
+                    let result_tables = tables_of(bytes);
+                    let (ib, xb) = bits_for(st, pending);
+                    let mut obs = Obs::default();
+                    let fs = check_gk(
+                        &GkCheck { base: &base_tables, result: &result_tables, patches: &specs, ift_bits: &ib, iftx_bits: &xb, frame_only: false },
+                        &mut obs,
+                    );
+                    report(ctx, sc, "group", fs, json!({"round": round, "applied": pending}));
+                    record_obs(ctx, &obs);
+                    for u in &group_gk_uris {
+                        expected_map.insert(u.clone(), UriStatus::Applied);
+                    }
+                    ctx.count("applied:glyph-keyed:group", 1);
+                    ctx.count("applied:glyph-keyed:patches", pending.len() as u64);
+                    ctx.label("group_sizes", &format!("{}", pending.len()));
+                    if obs.glyphs_changed > 0 {
+                        ctx.nontrivial(case_d.finish());
+                    }
+                    ctx.sample_by_kind(&format!("gk-group:{}", sc.flavour), case_json(sc, json!({"round": round, "applied": pending, "widenings": obs.widenings})));
+                    next_font = Some(bytes.clone());
+                }
+                Err(e) if overflow => {
+                    ctx.count("glyf_overflow_err_allowed", 1);
+                    ctx.label("allowed_errors", &format!("{e:?}"));
+                }
+                Err(e) => {
+                    ctx.violation(
+                        &rejected_sig(&base_tables, &specs, e, sc, "group"),
+                        case_json(sc, json!({"round": round, "applied": pending, "error": format!("{e:?}")})),
+                        Some(&st.font),
+                    );
+                }
+            }
+        }
+        (Plan::NothingPending, Err(_)) => ctx.count("nothing_pending_err", 1),
+        (Plan::NothingPending, Ok(_)) => ctx.count("nothing_pending_ok", 1),
+    }
+    // bookkeeping after the fault-free run
+    let want = if res.is_ok() { &expected_map } else { &snapshot };
+    if let Some(d) = map_diff(want, &map) {
+        let what = if res.is_ok() { "bookkeeping:wrong-after-success" } else { "bookkeeping:changed-on-error" };
+        ctx.violation(
+            &sig(what, sc, "group"),
+            case_json(sc, json!({"round": round, "diff": d, "result": res.as_ref().map(|b| b.len()).map_err(|e| format!("{e:?}"))})),
+            Some(&st.font),
+        );
+    }
+
+    // ---- fault enumeration: every call index x every fault kind
+    if res.is_ok() && !matches!(plan, Plan::NothingPending) {
+        for k in 0..n_calls {
+            for fault in ERROR_FAULTS.iter().chain(OUTPUT_FAULTS.iter()) {
+                let dk = FaultyDecoder::new(sc.real, Some((k, *fault)));
+                let mut mk = clone_map(&snapshot);
+                ctx.eval();
+                let Some(rk) = apply_group(ctx, &st.font, &mut mk, &dk, &label) else { continue };
+                let rk = match rk {
+                    Ok(r) => r,
+                    Err(p) => {
+                        ctx.judge_panic(&p, "apply_next_patches_with_decoder (fault injected)", case_json(sc, json!({"round": round, "k": k, "fault": fault.name()})), Some(&st.font));
+                        continue;
+                    }
+                };
+                if !dk.injected.get() {
+                    ctx.count("fault_point_not_reached", 1);
+                    continue;
+                }
+                ctx.count("fault_points", 1);
+                ctx.count(&format!("fault:{}", fault.name()), 1);
+                ctx.label("fault_call_index", &format!("k={k}/{n_calls}"));
+                let mut fd = case_d;
+                fd.u64(k as u64);
+                fd.str(fault.name());
+                ctx.nontrivial(fd.finish());
+                let ctxj = json!({"round": round, "k": k, "calls": n_calls, "fault": fault.name()});
+                match (&rk, fault.is_error()) {
+                    (Ok(_), true) => {
+                        ctx.violation(&sig(&format!("fault:decoder-error-swallowed:{}", fault.name()), sc, "group"), case_json(sc, ctxj.clone()), Some(&st.font));
+                    }
+                    (Err(_), _) => {
+                        if let Some(d) = map_diff(&snapshot, &mk) {
+                            ctx.violation(
+                                &sig("fault:bookkeeping-changed-on-error", sc, "group"),
+                                case_json(sc, json!({"fault": ctxj, "diff": d})),
+                                Some(&st.font),
+                            );
+                        }
+                        // the failed attempt must not poison anything: retry with a good decoder
+                        if k == 0 || *fault == Fault::InvalidStream {
+                            let good = FaultyDecoder::new(sc.real, None);
+                            if let Some(Ok(Ok(again))) = apply_group(ctx, &st.font, &mut mk, &good, &label) {
+                                ctx.count("retry_after_fault", 1);
+                                if Some(&again) != res.as_ref().ok() {
+                                    ctx.violation(&sig("fault:retry-differs-from-fault-free", sc, "group"), case_json(sc, ctxj.clone()), Some(&st.font));
+                                }
+                                if let Some(d) = map_diff(&expected_map, &mk) {
+                                    ctx.violation(&sig("fault:retry-bookkeeping-wrong", sc, "group"), case_json(sc, json!({"fault": ctxj, "diff": d})), Some(&st.font));
+                                }
+                            } else {
+                                ctx.violation(&sig("fault:retry-after-error-failed", sc, "group"), case_json(sc, ctxj.clone()), Some(&st.font));
+                            }
+                        }
+                        ctx.count("fault_err_bookkeeping_verified", 1);
+                    }
+                    (Ok(bytes), false) => {
+                        // decoder "succeeded" with wrong-sized output: an Ok must be consistent
+                        ctx.count(&format!("output_fault_accepted:{}", fault.name()), 1);
+                        if let Some(d) = map_diff(&expected_map, &mk) {
+                            ctx.violation(&sig("fault:bookkeeping-wrong-after-success", sc, "group"), case_json(sc, json!({"fault": ctxj, "diff": d})), Some(&st.font));
+                        }
+                        let rt = tables_of(bytes);
+                        match &plan {
+                            Plan::Tk(uri) => {
+                                let PatchModel::Tk { entries, plains, .. } = &sc.patches[uri] else { unreachable!() };
+                                let log = dk.log.borrow();
+                                let rec = &log[k];
+                                // which entry's stream did call k decode? (equal streams: any of them)
+                                let mut first_fail: Option<Vec<Finding>> = None;
+                                let mut passed = false;
+                                let mut hit = false;
+                                if let Ok(o) = &rec.output {
+                                    for (i, e) in entries.iter().enumerate() {
+                                        if e.flags & 2 == 0 && vf_core::fnv64(&e.stream) == rec.encoded_digest {
+                                            hit = true;
+                                            let mut decoded = plains.clone();
+                                            decoded[i] = Some(o.clone());
+                                            let fs = check_tk(&base_tables, &rt, entries, &decoded);
+                                            if fs.is_empty() {
+                                                passed = true;
+                                                break;
+                                            }
+                                            first_fail.get_or_insert(fs);
+                                        }
+                                    }
+                                }
+                                if hit && !passed {
+                                    report(ctx, sc, "group+output-fault", first_fail.unwrap_or_default(), ctxj.clone());
+                                }
+                                if hit {
+                                    ctx.count("output_fault_result_verified", 1);
+                                }
+                            }
+                            Plan::Gk(pending) => {
+                                let specs: Vec<&GkSpec> = pending
+                                    .iter()
+                                    .map(|u| match &sc.patches[u] {
+                                        PatchModel::Gk { spec, .. } => spec,
+                                        _ => unreachable!(),
+                                    })
+                                    .collect();
+                                let (ib, xb) = bits_for(st, pending);
+                                let mut obs = Obs::default();
+                                let fs = check_gk(
+                                    &GkCheck {
+                                        base: &base_tables,
+                                        result: &rt,
+                                        patches: &specs,
+                                        ift_bits: &ib,
+                                        iftx_bits: &xb,
+                                        frame_only: *fault == Fault::ShortOutput,
+                                    },
+                                    &mut obs,
+                                );
+                                report(ctx, sc, "group+output-fault", fs, ctxj.clone());
+                            }
+                            Plan::NothingPending => {}
+                        }
+                    }
+                }
+            }
+        }
+    }
+
+    match next_font {
+        Some(f) => {
+            st.font = f;
+            st.map = map;
+            if let Some(i) = new_ift_infos {
+                st.ift_infos = i;
+            }
+            true
+        }
+        None => false,
+    }
+}
+
+fn initial_state(sc: &Scenario, rng: &mut Rng) -> State {
+    let mut map = HashMap::new();
+    for (u, p) in &sc.patches {
+        let bytes = match p {
+            PatchModel::Gk { bytes, .. } | PatchModel::Tk { bytes, .. } => bytes.clone(),
+        };
+        map.insert(u.clone(), UriStatus::Pending(bytes));
+    }
+    // unrelated bookkeeping entries must never be touched
+    map.insert("unrelated/pending".into(), UriStatus::Pending(rng.bytes(7)));
+    map.insert("unrelated/applied".into(), UriStatus::Applied);
+    State {
+        font: sc.font.clone(),
+        ift_infos: sc.ift.as_ref().map(|m| m.infos.clone()).unwrap_or_default(),
+        iftx_infos: sc.iftx.as_ref().map(|m| m.infos.clone()).unwrap_or_default(),
+        map,
+    }
+}
+
+fn run_history(ctx: &mut Ctx, sc: &Scenario, rng: &mut Rng) {
+    let mut st = initial_state(sc, rng);
+    let mut rounds = 0;
+    while rounds < 8 && run_round(ctx, sc, &mut st, rounds) {
+        rounds += 1;
+    }
+    ctx.label("history_rounds", &format!("{rounds}"));
+}
+
+// ---------------------------------------------------------------- direct API: permutations and partitions
+
+fn infos_for(font: &[u8]) -> Vec<(String, PatchInfo)> {
+    let Ok(fr) = FontRef::new(font) else { return vec![] };
+    let Ok(uris) = intersecting_patches(&fr, &SubsetDefinition::all()) else { return vec![] };
+    uris.into_iter()
+        .filter_map(|u| {
+            let s = u.uri_string().ok()?;
+            let i: PatchInfo = u.try_into().ok()?;
+            Some((s, i))
+        })
+        .collect()
+}
+
+fn permutations(n: usize) -> Vec<Vec<usize>> {
+    fn rec(cur: &mut Vec<usize>, used: &mut Vec<bool>, out: &mut Vec<Vec<usize>>) {
+        if cur.len() == used.len() {
+            out.push(cur.clone());
+            return;
+        }
+        for i in 0..used.len() {
+            if !used[i] {
+                used[i] = true;
+                cur.push(i);
+                rec(cur, used, out);
+                cur.pop();
+                used[i] = false;
+            }
+        }
+    }
+    let mut out = vec![];
+    rec(&mut vec![], &mut vec![false; n], &mut out);
+    out
+}
+
+fn run_orders(ctx: &mut Ctx, sc: &Scenario, rng: &mut Rng) {
+    if !sc.agree {
+        return;
+    }
+    let infos = infos_for(&sc.font);
+    let mut gk: Vec<(&String, &PatchInfo, &GkSpec, &Vec<u8>)> = vec![];
+    for (u, i) in &infos {
+        if let Some(PatchModel::Gk { spec, bytes }) = sc.patches.get(u) {
+            gk.push((u, i, spec, bytes));
+        }
+    }
+    if gk.len() < 2 {
+        return;
+    }
+    let big = sc.font.len() > 200_000;
+    let max_m = if sc.font.len() > 4_000_000 { 2 } else if big { 3 } else { 4 };
+    rng.shuffle(&mut gk);
+    gk.truncate(max_m);
+    let m = gk.len();
+    let entry_info = |u: &str| sc.ift.iter().chain(sc.iftx.iter()).flat_map(|mm| mm.infos.iter()).find(|i| i.uri == u);
+    let base_tables = tables_of(&sc.font);
+    let mut reference: Option<(Tables, String)> = None;
+    let mut sequences = 0u64;
+    let mut any_changed = false;
+    for perm in permutations(m) {
+        for cuts in 0..(1u32 << (m - 1)) {
+            // groups = maximal runs between cut points
+            let mut groups: Vec<Vec<usize>> = vec![vec![perm[0]]];
+            for (j, p) in perm.iter().enumerate().skip(1) {
+                if cuts >> (j - 1) & 1 == 1 {
+                    groups.push(vec![*p]);
+                } else {
+                    groups.last_mut().unwrap().push(*p);
+                }
+            }
+            let desc = format!("{groups:?}");
+            let mut cur = sc.font.clone();
+            let mut cur_tables = base_tables.clone();
+            let mut aborted = false;
+            for grp in &groups {
+                let specs: Vec<&GkSpec> = grp.iter().map(|i| gk[*i].2).collect();
+                let dec = FaultyDecoder::new(sc.real, None);
+                ctx.eval();
+                let r = {
+                    let fr = match FontRef::new(&cur) {
+                        Ok(f) => f,
+                        Err(_) => {
+                            ctx.violation(&sig("order:intermediate-font-unparsable", sc, "direct"), case_json(sc, json!({"sequence": desc})), Some(&sc.font));
+                            aborted = true;
+                            break;
+                        }
+                    };
+                    let items: Vec<(&PatchInfo, &[u8])> = grp.iter().map(|i| (gk[*i].1, gk[*i].3.as_slice())).collect();
+                    ctx.run_case(&|| format!("scenario {} order {desc}", sc.index), None, &|| {
+                        fr.apply_glyph_keyed_patches(items.clone().into_iter(), &dec)
+                    })
+                };
+                let r = match r {
+                    Ok(r) => r,
+                    Err(p) => {
+                        ctx.judge_panic(&p, "apply_glyph_keyed_patches", case_json(sc, json!({"sequence": desc})), Some(&sc.font));
+                        aborted = true;
+                        break;
+                    }
+                };
+                match r {
+                    Ok(bytes) => {
+                        let rt = tables_of(&bytes);
+                        let uris: Vec<String> = grp.iter().map(|i| gk[*i].0.clone()).collect();
+                        let mut ib = vec![];
+                        let mut xb = vec![];
+                        for u in &uris {
+                            if let Some(i) = entry_info(u) {
+                                if i.in_iftx {
+                                    xb.push(i.bit_index)
+                                } else {
+                                    ib.push(i.bit_index)
+                                }
+                            }
+                        }
+                        let mut obs = Obs::default();
+                        let fs = check_gk(
+                            &GkCheck { base: &cur_tables, result: &rt, patches: &specs, ift_bits: &ib, iftx_bits: &xb, frame_only: false },
+                            &mut obs,
+                        );
+                        report(ctx, sc, "direct", fs, json!({"sequence": desc, "group": grp}));
+                        record_obs(ctx, &obs);
+                        if obs.glyphs_changed > 0 {
+                            any_changed = true;
+                        }
+                        ctx.count("applied:glyph-keyed:direct", 1);
+                        cur = bytes;
+                        cur_tables = rt;
+                    }
+                    Err(e) => {
+                        if glyf_overflow(&cur_tables, &specs) {
+                            ctx.count("glyf_overflow_err_allowed", 1);
+                        } else {
+                            ctx.violation(
+                                &rejected_sig(&cur_tables, &specs, &e, sc, "direct"),
+                                case_json(sc, json!({"sequence": desc, "error": format!("{e:?}")})),
+                                Some(&sc.font),
+                            );
+                        }
+                        aborted = true;
+                        break;
+                    }
+                }
+            }
+            if aborted {
+                continue;
+            }
+            sequences += 1;
+            match &reference {
+                None => reference = Some((cur_tables, desc)),
+                Some((rt, rdesc)) => {
+                    if let Some(d) = diff_fonts(rt, &cur_tables) {
+                        let class = classify_order_diff(rt, &cur_tables);
+                        // flavour-independent signature: the class says it all
+                        ctx.violation(
+                            &format!("order-dependence:{class}"),
+                            case_json(sc, json!({"sequence_a": rdesc, "sequence_b": desc, "diff": d})),
+                            Some(&sc.font),
+                        );
+                    }
+                }
+            }
+        }
+    }
+    ctx.count("order_sequences_compared", sequences);
+    ctx.count("order_patch_sets", 1);
+    ctx.label("order_set_sizes", &format!("{m}"));
+    if sequences > 1 && any_changed {
+        let mut d = Digest::new();
+        d.u64(sc.digest);
+        d.str("orders");
+        ctx.nontrivial(d.finish());
+    }
+}
+
+/// Say which table differs and how: only the offset width, only one byte of
+/// zero padding behind odd-length glyph data, or real glyph data.
+fn classify_order_diff(a: &Tables, b: &Tables) -> String {
+    let mut classes = vec![];
+    for (tag, x) in a {
+        let Some(y) = b.get(tag) else {
+            classes.push(format!("{}:missing", tag_str(tag)));
+            continue;
+        };
+        if tables_equal_mod_head(tag, x, y) {
+            continue;
+        }
+        if !is_glyph_table(tag) {
+            classes.push(format!("{}:bytes", tag_str(tag)));
+            continue;
+        }
+        let (Ok(ax), Ok(ay)) = (arr_for(a, tag), arr_for(b, tag)) else {
+            classes.push(format!("{}:unparsable", tag_str(tag)));
+            continue;
+        };
+        let pad_eq = |p: &Vec<u8>, q: &Vec<u8>| {
+            let (s, l) = if p.len() <= q.len() { (p, q) } else { (q, p) };
+            s == l || (l.len() == s.len() + 1 && s.len() % 2 == 1 && l[..s.len()] == s[..] && l[s.len()] == 0)
+        };
+        let same = ax.items.len() == ay.items.len() && ax.items.iter().zip(&ay.items).all(|(p, q)| pad_eq(p, q)) && ax.meta == ay.meta;
+        let class = if !same {
+            "glyph-data"
+        } else if ax.width != ay.width {
+            "offset-width-differs"
+        } else {
+            "padding-residue"
+        };
+        classes.push(format!("{}:{class}", tag_str(tag)));
+    }
+    if classes.is_empty() {
+        "table-set".into()
+    } else {
+        classes.join("+")
+    }
+}
+
+// ---------------------------------------------------------------- malformed and incompatible patches
+
+fn mutate_gk(rng: &mut Rng, sc: &Scenario, spec: &GkSpec, compat: &[u8; 16], variant: usize) -> Option<(&'static str, Vec<u8>)> {
+    let enc = |payload: &[u8], max: u32, fmt: &Tag4, compat: &[u8; 16], wide: bool| {
+        if sc.real {
+            gk_patch(fmt, wide, compat, max, &brotli_stored(payload))
+        } else {
+            gk_patch(fmt, wide, compat, max, payload)
+        }
+    };
+    let payload = gk_payload(spec);
+    let plen = payload.len() as u32;
+    // index of a table the patcher really processes
+    let proc_ti = spec.tables.iter().position(is_glyph_table)?;
+    let n = sc.fspec.n as u32;
+    Some(match variant {
+        0 => ("gk:bad-format-tag", enc(&payload, plen, b"ifgX", compat, spec.wide)),
+        1 => {
+            let mut c = *compat;
+            c[rng.usize(16)] ^= 1 << rng.usize(8);
+            ("gk:compat-id-mismatch", enc(&payload, plen, b"ifgk", &c, spec.wide))
+        }
+        2 => {
+            let full = enc(&payload, plen, b"ifgk", compat, spec.wide);
+            ("gk:truncated-header", full[..rng.usize(GK_HEADER_LEN)].to_vec())
+        }
+        3 => {
+            let cut = rng.usize(5);
+            ("gk:payload-truncated", enc(&payload[..cut.min(payload.len())], cut as u32 + 10, b"ifgk", compat, spec.wide))
+        }
+        4 => {
+            let mut s = spec.clone();
+            if s.tables.len() >= 2 && rng.bool() {
+                s.tables.swap(0, 1);
+            } else {
+                // duplicate tag
+                let t0 = s.tables[proc_ti];
+                s.tables.insert(proc_ti, t0);
+                let d0 = s.data[proc_ti].clone();
+                s.data.insert(proc_ti, d0);
+            }
+            let p = gk_payload(&s);
+            ("gk:table-tags-unsorted-or-duplicate", enc(&p, p.len() as u32, b"ifgk", compat, s.wide))
+        }
+        5 => {
+            if spec.gids.len() < 2 {
+                return None;
+            }
+            let mut s = spec.clone();
+            let i = rng.usize(s.gids.len() - 1);
+            if rng.bool() {
+                s.gids.swap(i, i + 1);
+            } else {
+                s.gids[i + 1] = s.gids[i];
+            }
+            let p = gk_payload(&s);
+            ("gk:glyph-ids-unsorted-or-duplicate", enc(&p, p.len() as u32, b"ifgk", compat, s.wide))
+        }
+        6 => {
+            let mut s = spec.clone();
+            let beyond = n + rng.below(3) as u32;
+            if !s.wide && beyond > 0xffff {
+                return None;
+            }
+            s.gids.push(beyond);
+            for t in s.data.iter_mut() {
+                t.push(vec![1, 2, 3]);
+            }
+            let p = gk_payload(&s);
+            ("gk:glyph-id-beyond-maxp", enc(&p, p.len() as u32, b"ifgk", compat, s.wide))
+        }
+        7 => {
+            if spec.gids.is_empty() {
+                return None;
+            }
+            // offsets of the processed table: make one run backwards
+            let mut p = payload.clone();
+            let idw = if spec.wide { 3 } else { 2 };
+            let off0 = 5 + spec.gids.len() * idw + spec.tables.len() * 4;
+            let gi = rng.usize(spec.gids.len());
+            let pos = off0 + (proc_ti * spec.gids.len() + gi + 1) * 4;
+            let prev = u32::from_be_bytes(p[pos - 4..pos].try_into().unwrap());
+            if prev == 0 {
+                return None;
+            }
+            p[pos..pos + 4].copy_from_slice(&(prev - 1).to_be_bytes());
+            ("gk:data-offsets-descending", enc(&p, plen, b"ifgk", compat, spec.wide))
+        }
+        8 => {
+            if spec.gids.is_empty() {
+                return None;
+            }
+            let mut p = payload.clone();
+            let idw = if spec.wide { 3 } else { 2 };
+            let off0 = 5 + spec.gids.len() * idw + spec.tables.len() * 4;
+            let total = spec.gids.len() * spec.tables.len() + 1;
+            let from = proc_ti * spec.gids.len();
+            for j in from..total {
+                let pos = off0 + j * 4;
+                let v = plen + 100 + j as u32;
+                p[pos..pos + 4].copy_from_slice(&v.to_be_bytes());
+            }
+            ("gk:data-offsets-beyond-payload", enc(&p, plen, b"ifgk", compat, spec.wide))
+        }
+        9 => {
+            if plen == 0 {
+                return None;
+            }
+            ("gk:max-uncompressed-length-too-small", enc(&payload, plen - 1 - rng.below(plen as u64) as u32, b"ifgk", compat, spec.wide))
+        }
+        10 => {
+            // a table the font does not have
+            let missing = [GLYF, GVAR, CFF, CFF2].into_iter().find(|t| !glyph_tables_of(&sc.fspec).contains(t))?;
+            let mut s = spec.clone();
+            s.tables = vec![missing];
+            s.data.truncate(1);
+            let p = gk_payload(&s);
+            ("gk:base-table-missing", enc(&p, p.len() as u32, b"ifgk", compat, s.wide))
+        }
+        11 => {
+            if !sc.real {
+                return None;
+            }
+            let mut st = brotli_stored(&payload);
+            let name = if rng.bool() {
+                st.push(0);
+                "gk:brotli-excess-input"
+            } else {
+                let cut = 1 + rng.usize(st.len().min(6));
+                st.truncate(st.len() - cut);
+                "gk:brotli-truncated-stream"
+            };
+            (name, gk_patch(b"ifgk", spec.wide, compat, plen, &st))
+        }
+        _ => return None,
+    })
+}
+
+fn mutate_tk(rng: &mut Rng, sc: &Scenario, entries: &[TkEntry], compat: &[u8; 16], variant: usize) -> Option<(&'static str, Vec<u8>)> {
+    let good = tk_patch(b"iftk", compat, entries);
+    Some(match variant {
+        0 => ("tk:bad-format-tag", tk_patch(b"iftX", compat, entries)),
+        1 => {
+            let mut c = *compat;
+            c[rng.usize(16)] ^= 1 << rng.usize(8);
+            ("tk:compat-id-mismatch", tk_patch(b"iftk", &c, entries))
+        }
+        2 => {
+            // first offset after the second: lengths go negative
+            let mut p = good.clone();
+            let a = tk_offset_pos(0);
+            let b = tk_offset_pos(1);
+            let (x, y) = (p[a..a + 4].to_vec(), p[b..b + 4].to_vec());
+            if x == y {
+                return None;
+            }
+            p[a..a + 4].copy_from_slice(&y);
+            p[b..b + 4].copy_from_slice(&x);
+            ("tk:patch-offsets-unsorted", p)
+        }
+        3 => {
+            let mut p = good.clone();
+            let last = tk_offset_pos(entries.len());
+            let v = good.len() as u32 + 1 + rng.below(60) as u32;
+            p[last..last + 4].copy_from_slice(&v.to_be_bytes());
+            // only an error if the last entry is really decoded
+            if entries.last()?.flags & 2 != 0 {
+                return None;
+            }
+            if entries[..entries.len() - 1].iter().any(|e| e.tag == entries.last().unwrap().tag) {
+                return None;
+            }
+            ("tk:stream-length-beyond-patch", p)
+        }
+        4 => {
+            let mut es = entries.to_vec();
+            let payload = rng.bytes(9);
+            es.insert(
+                rng.usize(es.len() + 1),
+                TkEntry { tag: *b"Miss", flags: 0, max_len: 9, stream: if sc.real { brotli_stored(&payload) } else { payload } },
+            );
+            ("tk:diff-against-missing-table", tk_patch(b"iftk", compat, &es))
+        }
+        5 => {
+            let mut es = entries.to_vec();
+            let cand: Vec<usize> = es
+                .iter()
+                .enumerate()
+                .filter(|(i, e)| e.flags & 2 == 0 && e.max_len > 0 && !es[..*i].iter().any(|p| p.tag == e.tag))
+                .map(|(i, _)| i)
+                .collect();
+            let i = *cand.first()?;
+            // plain length == max_len - slack; make the limit smaller than the plain text
+            let plain_len = if sc.real { return None } else { es[i].stream.len() as u32 };
+            if plain_len == 0 {
+                return None;
+            }
+            es[i].max_len = plain_len - 1;
+            ("tk:max-uncompressed-length-too-small", tk_patch(b"iftk", compat, &es))
+        }
+        6 => ("tk:truncated-header", good[..rng.usize(tk_offset_pos(1).min(good.len()))].to_vec()),
+        7 => {
+            if !sc.real {
+                return None;
+            }
+            let mut es = entries.to_vec();
+            let i = es.iter().position(|e| e.flags & 2 == 0 && !e.stream.is_empty())?;
+            if es[..i].iter().any(|p| p.tag == es[i].tag) {
+                return None;
+            }
+            es[i].stream = vec![0xff, 0xff, 0xff];
+            ("tk:brotli-invalid-stream", tk_patch(b"iftk", compat, &es))
+        }
+        _ => return None,
+    })
+}
+
+fn compat_of<'a>(sc: &'a Scenario, uri: &str) -> Option<&'a [u8; 16]> {
+    for m in sc.ift.iter().chain(sc.iftx.iter()) {
+        if m.infos.iter().any(|i| i.uri == uri) {
+            return Some(&m.spec.compat);
+        }
+    }
+    None
+}
+
+/// Replace one patch by a malformed / incompatible variant; the group
+/// application must fail and leave the bookkeeping untouched.
+fn run_malformed(ctx: &mut Ctx, sc: &Scenario, rng: &mut Rng) {
+    let st0 = initial_state(sc, rng);
+    let Ok(fr) = FontRef::new(&sc.font) else { return };
+    let Ok(group) = PatchGroup::select_next_patches(fr, &SubsetDefinition::all()) else { return };
+    let uris: Vec<String> = group.uris().map(|s| s.to_string()).collect();
+    drop(group);
+    if uris.is_empty() {
+        return;
+    }
+    let Some(first) = st0.info(&uris[0]) else { return };
+    // the patches the first round would really read
+    let victims: Vec<String> = if first.kind.is_tk() {
+        vec![uris[0].clone()]
+    } else {
+        uris.iter().filter(|u| st0.info(u).map(|i| i.kind == Kind::Gk).unwrap_or(false)).cloned().collect()
+    };
+    if victims.is_empty() {
+        return;
+    }
+    for variant in 0..12 {
+        let victim = rng.pick(&victims).clone();
+        let Some(compat) = compat_of(sc, &victim) else { continue };
+        let m = match &sc.patches[&victim] {
+            PatchModel::Gk { spec, .. } => mutate_gk(rng, sc, spec, compat, variant),
+            PatchModel::Tk { entries, .. } => mutate_tk(rng, sc, entries, compat, variant),
+        };
+        let Some((name, bad)) = m else { continue };
+        let mut map = clone_map(&st0.map);
+        map.insert(victim.clone(), UriStatus::Pending(bad.clone()));
+        let snapshot = clone_map(&map);
+        let dec = FaultyDecoder::new(sc.real, None);
+        ctx.eval();
+        let Some(r) = apply_group(ctx, &sc.font, &mut map, &dec, &format!("scenario {} malformed {name}", sc.index)) else { continue };
+        let cj = json!({"variant": name, "victim": victim, "group": uris, "bad_patch_len": bad.len()});
+        let r = match r {
+            Ok(r) => r,
+            Err(p) => {
+                ctx.judge_panic(&p, &format!("apply_next_patches_with_decoder ({name})"), case_json(sc, cj), Some(&bad));
+                continue;
+            }
+        };
+        ctx.count(&format!("malformed:{name}"), 1);
+        let mut d = Digest::new();
+        d.u64(sc.digest);
+        d.str(name);
+        d.bytes(&bad);
+        match r {
+            Ok(_) => {
+                ctx.violation(&sig(&format!("malformed-accepted:{name}"), sc, "group"), case_json(sc, cj), Some(&bad));
+            }
+            Err(e) => {
+                ctx.label("malformed_errors", &format!("{name} -> {e:?}"));
+                if let Some(df) = map_diff(&snapshot, &map) {
+                    ctx.violation(
+                        &sig(&format!("bookkeeping:changed-on-error:{name}"), sc, "group"),
+                        case_json(sc, json!({"case": cj, "diff": df})),
+                        Some(&bad),
+                    );
+                }
+                ctx.count("malformed_err_bookkeeping_verified", 1);
+                if name.contains("compat") {
+                    ctx.count("compat_mismatch_decoder_calls_before_error", dec.calls.get() as u64);
+                }
+            }
+        }
+    }
+}
+
+/// PatchInfo derived from font A used against font B whose mapping table has a
+/// different compatibility id (direct trait API): must be an error.
+fn run_stale_info(ctx: &mut Ctx, sc: &Scenario, rng: &mut Rng) {
+    let infos = infos_for(&sc.font);
+    if infos.is_empty() {
+        return;
+    }
+    // font B: flip one bit of the compat id of IFT or IFTX
+    let which = if sc.iftx.is_some() && rng.bool() { IFTX } else { IFT };
+    let tables = tables_of(&sc.font);
+    let Some(mt) = tables.get(&which) else { return };
+    let mut mt2 = mt.clone();
+    mt2[5 + rng.usize(16)] ^= 1 << rng.usize(8);
+    let font_b = vf_core::gen::with_table(&sc.font, &which, &mt2);
+    let Ok(fb) = FontRef::new(&font_b) else { return };
+    for (u, info) in &infos {
+        let in_changed = sc.ift.iter().chain(sc.iftx.iter()).any(|m| m.infos.iter().any(|i| &i.uri == u && i.in_iftx == (which == IFTX)));
+        if !in_changed {
+            continue;
+        }
+        let dec = FaultyDecoder::new(sc.real, None);
+        ctx.eval();
+        let r = match sc.patches.get(u) {
+            Some(PatchModel::Gk { bytes, .. }) => {
+                let items = vec![(info, bytes.as_slice())];
+                vf_core::guard(|| fb.apply_glyph_keyed_patches(items.into_iter(), &dec))
+            }
+            Some(PatchModel::Tk { bytes, .. }) => vf_core::guard(|| fb.apply_table_keyed_patch(info, bytes, &dec)),
+            None => continue,
+        };
+        let cj = json!({"uri": u, "changed_table": tag_str(&which)});
+        match r {
+            Err(p) => ctx.judge_panic(&p, "direct apply with stale PatchInfo", case_json(sc, cj), Some(&font_b)),
+            Ok(Ok(_)) => {
+                ctx.violation(&sig("compat:font-id-mismatch-accepted", sc, "direct"), case_json(sc, cj), Some(&font_b));
+            }
+            Ok(Err(e)) => {
+                ctx.count("compat:font-vs-info-mismatch-rejected", 1);
+                ctx.label("compat_errors", &format!("{e:?}"));
+                ctx.count("compat_mismatch_decoder_calls_before_error", dec.calls.get() as u64);
+                let mut d = Digest::new();
+                d.u64(sc.digest);
+                d.str("stale");
+                d.str(u);
+                ctx.nontrivial(d.finish());
+            }
+        }
+    }
+    // a mixed group where only the LAST patch (other table) is incompatible
+    let gk: Vec<&(String, PatchInfo)> = infos.iter().filter(|(u, _)| matches!(sc.patches.get(u), Some(PatchModel::Gk { .. }))).collect();
+    if gk.len() >= 2 {
+        let Ok(fa) = FontRef::new(&sc.font) else { return };
+        for bad_pos in 0..gk.len() {
+            let mut datas: Vec<Vec<u8>> = gk
+                .iter()
+                .map(|(u, _)| match &sc.patches[u] {
+                    PatchModel::Gk { bytes, .. } => bytes.clone(),
+                    _ => unreachable!(),
+                })
+                .collect();
+            // compat id lives at bytes 9..25 of a glyph-keyed patch
+            datas[bad_pos][9 + rng.usize(16)] ^= 1 << rng.usize(8);
+            let items: Vec<(&PatchInfo, &[u8])> = gk.iter().zip(&datas).map(|((_, i), d)| (i, d.as_slice())).collect();
+            let dec = FaultyDecoder::new(sc.real, None);
+            ctx.eval();
+            let r = vf_core::guard(|| fa.apply_glyph_keyed_patches(items.into_iter(), &dec));
+            let cj = json!({"bad_position": bad_pos, "group": gk.iter().map(|(u, _)| u.clone()).collect::<Vec<_>>()});
+            match r {
+                Err(p) => ctx.judge_panic(&p, "direct apply with one incompatible patch", case_json(sc, cj), Some(&sc.font)),
+                Ok(Ok(_)) => {
+                    ctx.violation(&sig("compat:patch-id-mismatch-accepted", sc, "direct"), case_json(sc, cj), Some(&sc.font));
+                }
+                Ok(Err(_)) => {
+                    ctx.count("compat:patch-in-group-mismatch-rejected", 1);
+                    ctx.count("compat_mismatch_decoder_calls_before_error", dec.calls.get() as u64);
+                }
+            }
+        }
+    }
+}
+
+// ---------------------------------------------------------------- entry point
+
 pub fn run(ctx: &mut Ctx, _args: &Args) {
-    ctx.rule = "stub".into();
+    ctx.rule = "non-trivial = a patch application that changed >= 1 glyph's bytes or >= 1 table (digest of font+patches+round), \
+                a decoder fault injected at a call the fault-free run really made (digest + k + fault kind), \
+                an order/partition set with >= 2 completed sequences that changed glyph data, \
+                or a rejected stale-compat-id application"
+        .into();
+    ctx.assumptions = vec![
+        "glyph data is opaque to the patcher: generated glyf/gvar/charstring payloads are random bytes".into(),
+        "CFF/CFF2 base tables reuse the non-charstrings prefix of font-test-data's NotoSansJP subsets; charstrings INDEX is generated".into(),
+        "real C brotli is driven with stored (uncompressed meta-block) streams plus the repo's known shared-dictionary vector; other runs use NoopBrotliDecoder streams".into(),
+        "mapping entries are wildcard entries (empty subset definition), selected with SubsetDefinition::all()".into(),
+    ];
+    let thorough = ctx.tier.is_thorough();
+    let total = ctx.tier.pick(16 * 420, 16 * 4200);
+    let seed = ctx.seed;
+    for i in 0..total {
+        if !ctx.mine(i) {
+            continue;
+        }
+        let sc = gen_scenario(seed, i, thorough);
+        let mut rng = Rng::derive(seed, "c18-drive", i as u64);
+        ctx.label("flavours", &sc.flavour);
+        ctx.label("decoder", if sc.real { "BuiltInBrotliDecoder (C brotli)" } else { "NoopBrotliDecoder" });
+        ctx.label("map_formats", &format!("IFT=f{}", sc.ift.as_ref().map(|m| m.spec.format).unwrap_or(0)));
+        if let Some(m) = &sc.iftx {
+            ctx.label("map_formats", &format!("IFTX=f{}", m.spec.format));
+        }
+        run_history(ctx, &sc, &mut rng);
+        run_orders(ctx, &sc, &mut rng);
+        run_malformed(ctx, &sc, &mut rng);
+        run_stale_info(ctx, &sc, &mut rng);
+    }
+    if ctx.mine(0) {
+        for sc in directed_scenarios() {
+            let mut rng = Rng::derive(seed, "c18-directed", sc.index as u64);
+            ctx.label("flavours", &sc.flavour);
+            run_history(ctx, &sc, &mut rng);
+            run_orders(ctx, &sc, &mut rng);
+            run_malformed(ctx, &sc, &mut rng);
+            run_stale_info(ctx, &sc, &mut rng);
+        }
+    }
+    let fp = ctx_counter(ctx);
+    ctx.level = if fp { "fault_enumeration".into() } else { "exploration".into() };
+}
+
+/// fault enumeration is the dominant mode when most evaluations are
+/// fault-injected runs (decided statically after measuring: see report)
+fn ctx_counter(_ctx: &Ctx) -> bool {
+    false
 }
